@@ -52,6 +52,7 @@ CONSTANTS MapOrder,     \* sequence of map ids (strings); MapOrder[1] is the roo
           Phased,       \* BOOLEAN: build the tree first, `Seal`, then only access it
           Resnap,       \* BOOLEAN: the map may change after get_static_map(), which may then be called again
           Staging,      \* BOOLEAN: resources may be moved out of a staging map into the main tree (see SetItem)
+          Again,        \* BOOLEAN: resources that are in the tree may be assigned once more (see SetItem)
           KeepSnap,     \* Resnap only: the program keeps (and still reads) an old snapshot through that many changes
                         \* of the tree; with the next change it lets go of it (0: it never looks at an old snapshot)
           KindChoices,  \* set of functions [Hd -> Kinds]: what load() returns
@@ -188,6 +189,9 @@ Walk(t, cur, acur, p, avoid) ==
                        ky |-> [t.ky EXCEPT ![f] = IF ImplicitMapsLinked THEN k ELSE None],
                        ab |-> ab1], nxt, anxt, Tail(p), avoid)
 
+Moved(m, node) == /\ Staging /\ m \in Sub(Root) /\ Cardinality(Places(node)) = 1
+                  /\ \A pl \in Places(node) : pl[1] # Root /\ ~Held(pl[1])
+
 SetItem(m, p, node) ==
     /\ "set" \in Ops /\ Mutable /\ m \in Builders
     \* generated domain: the assignment creates no cycle, and the value is
@@ -195,11 +199,13 @@ SetItem(m, p, node) ==
     \*  (moved) with Staging, a direct child of a staging map (a root-level map outside the main tree) that is moved
     \*          into the main tree: it then sits in two maps, its back-links follow the latest assignment, the place
     \*          in the staging map becomes `stale`, or
-    \*  (again) an object the assignment leaves in one place: stored once more under the path where it is already
-    \*          (nothing changes, its back-links included), or below a key part that evicts it from where it was.
+    \*  (again) with Again, an object the assignment leaves in one place: stored once more under the path where it
+    \*          is already (nothing changes, its back-links included), or below a key part that evicts it from where
+    \*          it was.
     \* No node is ever twice inside one tree: a map with stale places below it is not assigned anywhere.
     /\ node # Root /\ node # m /\ (node \in M => m \notin Sub(node))
     /\ (node \in M => \A t \in stale : t[1] \notin Sub(node))
+    /\ (~Held(node) \/ Again \/ Moved(m, node))             \* (cheap: spares the walk)
     /\ LET w == Walk([mp |-> maps, ly |-> layers, pa |-> parent, ky |-> key, ab |-> abs], m, m, Front(p), {m, node})
            t == w.t
            tg == w.tgt
@@ -210,10 +216,10 @@ SetItem(m, p, node) ==
        IN /\ tg # None
           /\ (node \in M => tg \notin Sub(node))
           /\ \/ ~Held(node)
-             \/ /\ Staging /\ m \in Sub(Root) /\ Cardinality(Places(node)) = 1
-                /\ \A pl \in Places(node) : pl[1] # Root /\ ~Held(pl[1])
-             \/ \A pl \in M \X Names : PlaceIn(mp2, ly2, <<pl[1], pl[2], node>>) =>
-                                           pl = <<tg, l>> \/ <<pl[1], pl[2], node>> \in stale
+             \/ Moved(m, node)
+             \/ /\ Again
+                /\ \A pl \in M \X Names : PlaceIn(mp2, ly2, <<pl[1], pl[2], node>>) =>
+                                              pl = <<tg, l>> \/ <<pl[1], pl[2], node>> \in stale
           /\ maps' = mp2 /\ layers' = ly2
           /\ parent' = Forget([t.pa EXCEPT ![node] = tg], mp2, ly2)
           /\ key' = Forget([t.ky EXCEPT ![node] = l], mp2, ly2)
